@@ -439,7 +439,9 @@ _direct = st.one_of(
     st.builds(lambda n, s, nm: {"node": n, "name": nm, "cls": "bare-params", "spec": s}, st.integers(0, 9), st.one_of(V.s_date, V.s_utc, V.s_zoned, T.s_value("period")),
               st.sampled_from(["TRIGGER", "DTSTART", "DTEND", "RDATE", "EXDATE", "DUE", "RECURRENCE-ID", "FREEBUSY", "X-TYPED"])),
     st.builds(lambda n, d, c: {"node": n, "name": "RRULE", "cls": c, "spec": {"k": "recur", "v": d}}, st.integers(0, 9),
-              st.permutations([("COUNT", 3), ("FREQ", "DAILY"), ("BYDAY", ["MO", "TU"]), ("INTERVAL", 2), ("WKST", "SU")]).map(dict),
+              st.one_of(st.permutations([("COUNT", 3), ("FREQ", "DAILY"), ("BYDAY", ["MO", "TU"]), ("INTERVAL", 2), ("WKST", "SU")]).map(dict),
+                        # an UNTIL in a real zone (serialising writes it in UTC; the stored value must stay what it was)
+                        st.tuples(V.s_zoned, st.permutations([("FREQ", "WEEKLY"), ("BYDAY", ["FR"]), ("INTERVAL", 2)])).map(lambda t: dict(t[1] + [("UNTIL", t[0])]))),
               st.sampled_from(["vRecur", "vRecur-setitem"])),
 )
 
